@@ -242,7 +242,7 @@ class Schedules(Stream):
         if tier == 'quick':
             spec = [(0, 16, ['all']), (4, 16, ['best'])]
         else:
-            spec = [(1, 28, list(es.MODES)), (4, 28, list(es.MODES)), (0, 18, ['best', 'all'])]
+            spec = [(1, 20, list(es.MODES)), (4, 16, ['best', 'all'])]
         # twodel: molecules whose first pass leaves TWO fragments with the same id (both aligned in the second pass)
         return [dict(ds_seed=base.randint(1, 10 ** 9), nq=nq, extra=es.PARAM_SETS[k], modes=ms, tier=tier, twodel=4) for k, nq, ms in spec]
 
